@@ -1,12 +1,16 @@
 import BluetoeModel.Util.Proto
 import BluetoeModel.Cccd.Parse
+import BluetoeModel.Cccd.Shape
 open BluetoeModel.Util BluetoeModel.Cccd
 
 def drvStep (s : Option State) (ws : List String) : Option State × String :=
   match ws with
   | "reset" :: _ :: rest =>
       match parseSpec rest with
-      | some sp => (some (State.init sp.decl sp.mem), sp.describe)
+      | some sp =>
+          -- the precondition of `cccd_never_oob`, evaluated on the real table
+          if declWF sp.decl sp.mem then (some (State.init sp.decl sp.mem), sp.describe)
+          else (s, "MODEL-TABLE-NOT-WF")
       | none => (s, "bad-op")
   | _ =>
     match s with
